@@ -39,9 +39,12 @@ def dwt_forward(rep, pid, tier):
             if (k + MODES.index(mode)) % 3 == 0:
                 J += 4                                  # deep pyramids too (5..8 levels: a level counter, a table of per-level sizes)
             N = _sizes1(tier)[(k + MODES.index(mode)) % len(_sizes1(tier))]
-            x = rng.standard_normal((2, 3, N))
+            wide = (k + MODES.index(mode)) % 4 == 2       # WIDE instead of long: more channels than any slab / group size (67, 131)
+            if wide:
+                N, J = 61 + k, min(J, 3)
+            x = rng.standard_normal((1, 67 if k % 2 else 131, N) if wide else (2, 3, N))
             ref = pywt.wavedec(x, w, mode=mode, level=J, axis=-1)
-            cfg = dict(wavelet=name, mode=mode, N=N, J=J, batch=2, channels=3)
+            cfg = dict(wavelet=name, mode=mode, N=N, J=J, batch=x.shape[0], channels=x.shape[1])
             rep.validated()
             rep.nontriv(("scale_dwt1", name, mode, N, J))
             n += 1
@@ -61,9 +64,11 @@ def dwt_forward(rep, pid, tier):
                               % (name, mode, J, N, err, bound), {"api": "DWT1DForward", "check": "scale", "cfg": cfg})
             H, W = _sizes2(tier)[(k + MODES.index(mode)) % len(_sizes2(tier))]
             J2 = 1 + (k + MODES.index(mode)) % 3 + (3 if (k + MODES.index(mode)) % 4 == 1 else 0)
-            x2 = rng.standard_normal((1, 2, H, W))
+            if wide:
+                H, W, J2 = 21 + k, 18, min(J2, 2)
+            x2 = rng.standard_normal((1, 67 if k % 2 else 131, H, W) if wide else (1, 2, H, W))
             ref2 = pywt.wavedec2(x2, w, mode=mode, level=J2, axes=(-2, -1))
-            cfg = dict(wavelet=name, mode=mode, H=H, W=W, J=J2)
+            cfg = dict(wavelet=name, mode=mode, H=H, W=W, J=J2, channels=x2.shape[1])
             rep.validated()
             rep.nontriv(("scale_dwt2", name, mode, H, W, J2))
             try:
@@ -99,8 +104,13 @@ def dwt_inverse(rep, pid, tier, roundtrip=False):
             J = 1 + (k + MODES.index(mode)) % 3 + (4 if (k + MODES.index(mode)) % 3 == 1 else 0)
             N = _sizes1(tier)[(k + MODES.index(mode) + 1) % len(_sizes1(tier))]
             H, W = _sizes2(tier)[(k + MODES.index(mode) + 1) % len(_sizes2(tier))]
+            wide = (k + MODES.index(mode)) % 4 == 2       # WIDE instead of large: 67 / 131 channels on small supports
+            if wide:
+                N, H, W, J = 61 + k, 21 + k, 18, min(J, 2)
             for dim in (1, 2):
                 shape = (2, 2, N) if dim == 1 else (1, 2, H, W)
+                if wide:
+                    shape = (1, 67 if k % 2 else 131) + shape[2:]
                 x = rng.standard_normal(shape)
                 cfg = dict(wavelet=name, mode=mode, J=J, shape=list(shape), roundtrip=roundtrip)
                 rep.validated()
@@ -182,9 +192,15 @@ def dtcwt(rep, pid, tier, what):
     n = 0
     logging.disable(logging.WARNING)
     try:
+        cases = []
         for k, (b, q) in enumerate(pairs):
             H, W, J = sizes[k % len(sizes)]
-            N, C = (2, 3) if k % 2 == 0 else (1, 2)
+            cases.append((b, q, H, W, J) + ((2, 3) if k % 2 == 0 else (1, 2)))
+        # ... and WIDE inputs: more channels than any slab / group size a code path may process at once (small images)
+        cases += [("near_sym_a", "qshift_a", 20, 24, 3, 1, 67), ("near_sym_b", "qshift_b", 16, 12, 2, 1, 131)]
+        if tier != "quick":
+            cases += [("legall", "qshift_c", 12, 16, 2, 2, 259)]
+        for k, (b, q, H, W, J, N, C) in enumerate(cases):
             x = rng.standard_normal((N, C, H, W))
             cfg = dict(biort=b, qshift=q, H=H, W=W, J=J, batch=N, channels=C)
             rep.validated()
@@ -263,9 +279,9 @@ def swt(rep, pid, tier):
     dwtlib.f64()
     rng = np.random.default_rng(65000 + seed())
     n = 0
-    for name, (H, W), J in (("db2", (256, 72), 3), ("bior2.2", (80, 272), 4), ("haar", (144, 136), 3)):
+    for name, (H, W), J in (("db2", (256, 72), 3), ("bior2.2", (80, 272), 4), ("haar", (144, 136), 3), ("db2", (16, 24), 2)):
         w = pywt.Wavelet(name)
-        x = rng.standard_normal((2, 3, H, W))
+        x = rng.standard_normal((2, 3, H, W) if H > 16 else (1, 67, H, W))       # the last one: WIDE (67 channels) instead of large
         ref = pywt.swt2(x, w, level=J, axes=(-2, -1))
         cfg = dict(wavelet=name, H=H, W=W, J=J)
         rep.validated()
